@@ -222,6 +222,63 @@ Fixpoint sp_run (md : mode) (s : spec) (ops : list cop) : spec * list (outcome r
       (s2, (r, tx) :: outs)
   end.
 
+(* ---- transmissions that fail ---- *)
+(* What the property asks for when the packet an operation has to send cannot be sent (the tx queue returns an    *)
+(* error, which the operation passes on), read off its clauses 'packets matching no known connection create no     *)
+(* state', 'affect only the connection identified by ...', 'buffered data remains readable and the connection is   *)
+(* closed with a reset once drained', 'operations on unknown connections fail with not connected':                 *)
+(*  - a LOCAL operation (connect, send, recv, update_credit, shutdown, force_close) has had NO effect: no entry is  *)
+(*    created or removed, no credit is consumed, no byte leaves a buffer; it can be tried again;                    *)
+(*  - a PACKET whose reply (RESPONSE, RST, CREDIT_UPDATE) cannot be sent creates no entry, removes none,           *)
+(*    establishes nothing and is not reported; for a connection that exists, what the packet says about the PEER   *)
+(*    is not lost: its flow-control fields are recorded, and the SHUTDOWN of a drained connection - whose RST is    *)
+(*    still owed - marks it as shut down by the peer (send is refused, the next recv tries the reset again).       *)
+(* Nothing here looks at the code: the rule is 'the effect of sp_step is withheld'.                                *)
+Definition sp_packet_failed (s : spec) (ev : event) : spec :=
+  let k : key := (a_cid (ev_src ev), a_port (ev_src ev), a_port (ev_dst ev)) in
+  if negb (a_cid (ev_dst ev) =? sp_cid s) then s
+  else
+    match slookup k (sp_tab s) with
+    | None => s
+    | Some e =>
+        let e1 := se_with_cr e (cr_from_packet (se_cr e) (ev_buf_alloc ev) (ev_fwd_cnt ev) false) in
+        sp_put s k (match ev_type ev with EtDisconnected true => se_peer_shut e1 | _ => e1 end)
+    end.
+
+Definition sp_poll_failed (s : spec) (rx : option (N * list N)) : spec :=
+  match rx with
+  | None => s
+  | Some (ulen, bytes) =>
+      match read_header_and_body (firstn (cntN ulen bytes) bytes) with
+      | inr _ => s
+      | inl (h, _) =>
+          sp_packet_failed s (mkEvent (mkAddr (vh_src_cid h) (vh_src_port h)) (mkAddr (vh_dst_cid h) (vh_dst_port h))
+                                      (vh_buf_alloc h) (vh_fwd_cnt h) (sp_etype (vh_op h) (vh_len h)))
+      end
+  end.
+
+(* one step when the transmission (if the step makes one: no step makes two) meets the outcome `ti` *)
+Definition sp_step_tx (md : mode) (s : spec) (o : cop) (ti : txin) : sresult :=
+  let '(s', r, tx) := sp_step md s o in
+  match tx with
+  | [] => (s', r, tx)
+  | p :: _ =>
+      let t := tx_pick ti (snd p) in
+      match tx_err t with
+      | None => (s', r, tx)
+      | Some e => (match o with OpPoll rx => sp_poll_failed s rx | _ => s end, Err e, tx_seen t p)
+      end
+  end.
+
+Fixpoint sp_run_tx (md : mode) (s : spec) (ops : list (cop * txin)) : spec * list (outcome rval * list pkt) :=
+  match ops with
+  | [] => (s, [])
+  | (o, ti) :: rest =>
+      let '(s1, r, tx) := sp_step_tx md s o ti in
+      let '(s2, outs) := sp_run_tx md s1 rest in
+      (s2, (r, tx) :: outs)
+  end.
+
 (* the key an operation or packet is about (None: it is about no connection at all) *)
 Definition op_key (cid : N) (o : cop) : option key :=
   match o with
